@@ -1,4 +1,5 @@
 import ThunderModel.Sql.BatchQuery
+import ThunderProofs.Sql.Tester
 /-!
 # C10 — SQL batching is transparent: each query gets exactly its own rows
 
@@ -83,5 +84,69 @@ theorem late_validation_fails_siblings :
       callAlone valid table f = .rows [[(0, some 1)]] ∧ callBatchedLate valid calls table f = .err :=
   ⟨fun f => !f.any (·.1 == 999), [[(0, some ⟨0, 1⟩)], [(999, none)]], [[(0, some 1)], [(0, some 2)]], [(0, some ⟨0, 1⟩)],
     by decide, by decide, by decide⟩
+
+/-! ### "any Go types of filter values that denote the same column value": the tester against the database
+
+`ThunderModel/Sql/Tester.lean`. In the batching model above the tester and the WHERE clause are one
+predicate; here the tester's own procedure on an integer column (compare driver values, else convert
+the filter value to the column's type) is compared with the database's `=`. -/
+section tester
+open TM.Sql.Tester TM.Codec
+
+/-- **The row tester agrees with the database** on an integer column (every width and signedness
+except uint64, whose values above MaxInt64 are stored wrapped): whatever value the column holds and
+however the filter value is written - an integer of any type, in or out of the column's range, a
+whole number as a float, a float with a fraction, a bool - the tester hands the row to the query
+exactly when `col = ?` selects it. -/
+theorem tester_agrees_with_database (k : IKind) (hk : k.signed = true ∨ k.width ≠ .w64) (x : Int) (hx : inRange k x)
+    (s : Spell) : testerMatch k x s = dbMatch x s := by
+  have hsx := stored_of_inRange k hk x hx
+  have hst : ∀ v, stored k (wrap k v) = wrap k v := fun v => stored_of_inRange k hk _ (wrap_inRange k v)
+  have hw := wrap_of_inRange k x hx
+  -- after normalisation every spelling but a fraction is an integer `v`: the second comparison
+  have key : ∀ v : Int, sameAs x (if stored k (wrap k v) = v then some (stored k (wrap k v)) else none) = (x == v) := by
+    intro v
+    rw [hst v]
+    by_cases hv : x = v
+    · subst hv; simp [hw, sameAs]
+    · have e2 : (x == v) = false := by simp [hv]
+      by_cases hwv : wrap k v = v
+      · have e1 : (v == x) = false := by simp; exact fun h => hv h.symm
+        simp [hwv, sameAs, e1, e2]
+      · simp [hwv, sameAs, e2]
+  cases s with
+  | int v =>
+    simp only [testerMatch, firstEq, coerce, normalise, dbMatch, hsx]
+    rw [key v]
+    by_cases hv : v = x
+    · subst hv; simp
+    · have e1 : (v == x) = false := by simp [hv]
+      simp [e1]
+  | wholeFloat v => simp only [testerMatch, firstEq, coerce, normalise, dbMatch, Bool.false_or, hsx]; exact key v
+  | fracFloat => simp [testerMatch, firstEq, coerce, normalise, dbMatch, sameAs]
+  | bool b => simp only [testerMatch, firstEq, coerce, normalise, dbMatch, Bool.false_or, hsx]; exact key (ofBool b)
+
+/-- why uint64 is left out: a column holding MaxUint64 is stored as -1, and the filter value -1, which
+the database matches with no unsigned value, is a match for the tester -/
+theorem uint64_is_outside : testerMatch ⟨.w64, false⟩ 18446744073709551615 (.int (-1)) = true ∧
+    dbMatch 18446744073709551615 (.int (-1)) = false ∧ inRange ⟨.w64, false⟩ 18446744073709551615 := by decide
+
+/-- the code before the repair C10-4: an int8 column holding 44 and the filter value 300, which no
+row has, were a match -/
+theorem old_out_of_range_wraps :
+    testerMatchNoCheck ⟨.w8, true⟩ 44 (.int 300) = true ∧ dbMatch 44 (.int 300) = false ∧ inRange ⟨.w8, true⟩ 44 := by
+  decide
+
+/-- the code before the repair C10-5 lost an id written as a float of 1e6 or more -/
+theorem old_large_float_lost :
+    normaliseOld (.wholeFloat 1234567) = none ∧ dbMatch 1234567 (.wholeFloat 1234567) = true ∧
+      testerMatch i64 1234567 (.wholeFloat 1234567) = true := by
+  decide
+
+/-- Non-vacuity: a uint32 column holding 4294967295 and the filter -1 are no match; 1 as true and as
+1.0 are matches of a column holding 1 -/
+example : testerMatch ⟨.w32, false⟩ 4294967295 (.int (-1)) = false ∧ testerMatch ⟨.w8, true⟩ 1 (.bool true) = true ∧
+    testerMatch ⟨.w8, true⟩ 1 (.wholeFloat 1) = true ∧ testerMatch ⟨.w8, true⟩ 1 .fracFloat = false := by decide
+end tester
 
 end TM.Properties.C10
